@@ -9,7 +9,8 @@ fn supervise(args: &[String]) -> ! {
     use std::process::Command;
     let exe = std::env::current_exe().expect("current_exe");
     let prop = args[1].clone();
-    let timeout = std::env::var("VERIF_WALL_LIMIT_S").ok().and_then(|s| s.parse::<u64>().ok()).unwrap_or(4 * 3600);
+    let thorough = args.iter().any(|a| a == "thorough") || std::env::var("VERIF_TIER").ok().as_deref() == Some("thorough");
+    let timeout = std::env::var("VERIF_WALL_LIMIT_S").ok().and_then(|s| s.parse::<u64>().ok()).unwrap_or(if thorough { 6 * 3600 } else { 1800 });
     let run = |extra_env: &[(&str, String)], extra_args: &[String]| -> (Option<i32>, bool) {
         let mut cmd = Command::new(&exe);
         cmd.args(&args[1..]).args(extra_args).env("VERIF_CHILD", "1");
